@@ -19,6 +19,7 @@ type SpecEnv struct {
 	before map[string]TV
 	bound  map[string]TV
 	fn     *ssa.Function
+	outOfScope func(name string) (TV, bool) // a local of the function that is not in scope at this point
 	witness bool // goal position: offer program variables as witnesses of integer existentials
 }
 
@@ -195,6 +196,11 @@ func (v *VC) ev(e SExpr, env *SpecEnv) TV {
 		}
 		if tv, ok := v.lookupPkgMember(env.fn, "", x.Name); ok {
 			return tv
+		}
+		if env.outOfScope != nil {
+			if tv, ok := env.outOfScope(x.Name); ok {
+				return tv
+			}
 		}
 		specPanic("unknown identifier %s", x.Name)
 	case SUnary:
